@@ -37,6 +37,8 @@ type Case struct {
 	Keys [][2]string `json:"keys_b64,omitempty"` // name (plain), value (base64)
 	Data []string    `json:"data_b64,omitempty"`
 	Runs int         `json:"runs,omitempty"`
+	// exprself: the raw -k arguments (a name without '=', a name given more than once)
+	Pairs []string `json:"pairs,omitempty"`
 }
 
 func b64(b []byte) string { return base64.StdEncoding.EncodeToString(b) }
